@@ -14,7 +14,7 @@ ANCHORS = [('bits.py', 'Bits.__and__'), ('bits.py', 'Bits.__or__'), ('bits.py', 
            ('bits.py', 'Bits.zeroextend'), ('bits.py', 'Bits.signextend'), ('bits.py', 'Bits.hw'), ('bits.py', 'Bits.hd'),
            ('operators.py', 'rol'), ('operators.py', 'ror'), ('operators.py', 'concat')]
 REQUIRED = ['op:+', 'op:-', 'op:&', 'op:|', 'op:^', 'op:neg', 'op:~', 'op:*', 'op:<<', 'op:>>', 'op://', 'rol', 'ror', 'split', 'getitem',
-            'setitem', 'history-step', 'operand-unchanged', 'law:a+(-a)==0', 'law:rol(ror)']
+            'setitem', 'history-step', 'operand-unchanged', 'law:a+(-a)==0', 'law:rol(ror)', 'resalias:second-read', 'alias-unaffected']
 NSHARDS = 13
 SAN = {'quick': (3, 6), 'thorough': (3, 3)}
 S3_EVERY = 50
@@ -80,6 +80,8 @@ def cases(tier, rng):
     for j in range(nbig):
         yield {'k': 'big', 'm': sizes[j % len(sizes)], 'n': sizes[(j // len(sizes) + j) % len(sizes)], 'pa': j % 4, 'pb': (j // 4) % 4}
     nh = 6000 if tier == 'quick' else 100000
+    for j in range(200 if tier == 'quick' else 4000):
+        yield {'k': 'resalias', 'n': [1, 2, 3, 5, 8, 16, 33, 64][j % 8], 'j': j}
     for j in range(nh):
         yield {'k': 'history', 'n': [0, 1, 2, 5, 8, 13, 32, 64, 65, 200][j % 10], 'steps': 1 + j % 12}
 
@@ -260,6 +262,39 @@ def run_big(case, ctx, rng):
             w[p] = (v >> j) & 1
         Z = B(*a); r = call(Z.__setitem__, sl, B(v, s))
         ctx.check('setitem', not is_exc(r) and (Z.ival, Z.size) == fl(w) and Z.mask == M(m), r if is_exc(r) else vs(Z), fl(w), idx=str(sl), v=v, a=a)
+
+def run_resalias(case, ctx, rng):
+    """history across objects: a result (of any operator, of b[i], b[i:j], b[list], split, extension) is mutated in
+    place; the operands, later reads of the same operands and sibling vectors must be unaffected"""
+    from crysp.bits import Bits as B
+    from crysp.utils.operators import rol, ror
+    n = case['n']
+    a = (rng.getrandbits(n), n); b = (rng.getrandbits(n), n)
+    A, Bv, Sib = B(*a), B(*b), B(*a)
+    ctx.cls(('resalias', n, case['j'] % 7))
+    i = rng.randrange(n)
+    exprs = [('a[i]', lambda: A[i], (((a[0] >> i) & 1), 1)), ('a[-1]', lambda: A[-1], ((a[0] >> (n - 1)) & 1, 1)), ('a[0:n]', lambda: A[0:n], a), ('a[[i]]', lambda: A[[i]], (((a[0] >> i) & 1), 1)),
+             ('a&b', lambda: A & Bv, m_bin('&', a, b)), ('a|b', lambda: A | Bv, m_bin('|', a, b)), ('a^b', lambda: A ^ Bv, m_bin('^', a, b)), ('a+b', lambda: A + Bv, m_bin('+', a, b)),
+             ('a-b', lambda: A - Bv, m_bin('-', a, b)), ('~a', lambda: ~A, m_inv(a)), ('-a', lambda: -A, m_neg(a)), ('a<<1', lambda: A << 1, m_shl(a, 1)), ('a>>1', lambda: A >> 1, m_shr(a, 1)),
+             ('a//b', lambda: A // Bv, m_cat(a, b)), ('rol(a,1)', lambda: rol(A, 1), m_rol(a, 1)), ('ror(a,0)', lambda: ror(A, 0), a), ('a.split(n)[0]', lambda: A.split(n)[0], a),
+             ('Bits(a)', lambda: B(A), a), ('a&a', lambda: A & A, a), ('a|0', lambda: A | 0, a), ('a+0', lambda: A + 0, a)]
+    muts = [lambda r: r.__setitem__(0, 1 - r.bit(0)), lambda r: setattr(r, 'size', r.size + 3), lambda r: r.zeroextend(r.size + 5),
+            lambda r: r.signextend(r.size + 2), lambda r: r.__setitem__(slice(0, r.size), B(rng.getrandbits(r.size), r.size)), lambda r: setattr(r, 'ival', r.ival ^ 1)]
+    for name, f, want in exprs:
+        r = call(f)
+        det = dict(expr=name, a=a, b=b, i=i)
+        if not res_ok(ctx, 'resalias:first-read', r, want, **det):
+            continue
+        m = call(rng.choice(muts), r)
+        # nothing but r may have moved
+        okk = (A.ival, A.size, A.mask) == (a[0], n, M(n)) and (Bv.ival, Bv.size, Bv.mask) == (b[0], n, M(n)) and (Sib.ival, Sib.size) == a
+        ctx.check('alias-unaffected', okk, (vs(A), vs(Bv), vs(Sib)), (a, b, a), after='mutating the result of ' + name, **det)
+        # the same expression, and single-bit reads on a sibling, still give the model's value
+        res_ok(ctx, 'resalias:second-read', call(f), want, **det)
+        j = rng.randrange(n)
+        res_ok(ctx, 'resalias:sibling-read', call(lambda: Sib[j]), ((a[0] >> j) & 1, 1), j=j, **det)
+        if (A.ival, A.size) != a or (Bv.ival, Bv.size) != b:
+            A, Bv = B(*a), B(*b)
 
 def run_history(case, ctx, rng):
     """one vector mutated step by step; an alias taken before each step must not move"""
